@@ -614,5 +614,32 @@ func init() {
 			c.lspCase([]string{text}, hist, "navigation")
 			c.count("navigation_positions:" + fmt.Sprint(len(hist)/200*200))
 		}
+		// navigation in TWO open documents (and one that was never opened), position by position, alternating: an
+		// answer is about the document named in the request, whatever was asked just before about another one
+		for i := 0; i < c.size(8, 300); i++ {
+			r := root.Fork()
+			ta, tb := smallScript(r, true), smallScript(r, i%2 == 0)
+			a, b, never := uris[0], uris[1], "file:///never-opened.num"
+			hist := []lspReq{{Op: "open", URI: a, Tid: 0}, {Op: "open", URI: b, Tid: 1}}
+			la, lb := lineLengths(ta), lineLengths(tb)
+			for l := 0; l < len(la) || l < len(lb); l++ {
+				n := 0
+				if l < len(la) {
+					n = la[l]
+				}
+				if l < len(lb) && lb[l] > n {
+					n = lb[l]
+				}
+				for ch := 0; ch <= n; ch++ {
+					hist = append(hist, lspReq{Op: "hover", URI: a, Line: l, Char: ch}, lspReq{Op: "hover", URI: b, Line: l, Char: ch},
+						lspReq{Op: "def", URI: b, Line: l, Char: ch}, lspReq{Op: "def", URI: a, Line: l, Char: ch})
+					if ch%7 == 3 {
+						hist = append(hist, lspReq{Op: "hover", URI: never, Line: l, Char: ch}, lspReq{Op: "def", URI: never, Line: l, Char: ch})
+					}
+				}
+			}
+			c.lspCase([]string{ta, tb}, hist, "navigation")
+			c.count("navigation_two_documents")
+		}
 	}
 }
